@@ -29,6 +29,19 @@
 (* width, are then not a signature (the fact is FALSE; every length that follows the blob only adds reasons) *)
 (* - lemma AsDeliveredRejected, the reason why the dimension is explored.                                    *)
 (* GEN emits every (kind, curve, ISK, be) as the plan the harness has to BUILD in every composition.         *)
+(* Strengthening round (seed C02-m10): (4) the LENGTH CLASS OF THE ISK USER DATA is a dimension of the case  *)
+(* space: none / a multiple of 4 (small, the limit) / 1, 2, 3 mod 4 (small, just below the limit) - UdPlan.   *)
+(* The ISK certificate is header words || ISK public key || user data || signature; the ROM finds the          *)
+(* signature through the offset word and verifies it over the bytes in front of it AS THEY STAND IN THE FILE.  *)
+(* shape.udx says what the signer of the certificate saw: "exported" - those bytes (the format); "given" - the  *)
+(* user data as the caller gave them while the exported certificate carries them padded to a multiple of 4.      *)
+(* For a multiple of 4 the two are the same image; otherwise the padding bytes lie inside the verified range     *)
+(* and outside the signed one: the fact of IskCert is FALSE - lemma PaddedUnsignedRejected, the reason why the    *)
+(* dimension is explored - while every length field is consistent.  Lemma UdLengthsAccepted: the ROM model         *)
+(* accepts the image of the format for every length class.  GEN emits every (kind, curve, ISK, ud) of UdPlan        *)
+(* together with UdRoutes (configuration route / classes with the family / classes without a family) as the plan    *)
+(* the harness has to BUILD in every composition: the tool may REFUSE a length (it does so for lengths that are      *)
+(* no multiple of 4 wherever it knows the family) - what it EXPORTS is decided like any other image.                *)
 EXTENDS MbiRom, Json, IOUtils
 
 Full == IF "MC_FULL" \in DOMAIN IOEnv THEN IOEnv.MC_FULL = "1" ELSE FALSE
@@ -48,6 +61,11 @@ KeyBytes == IF Full THEN {256, 384, 512} ELSE {256, 384}
 Depths == IF Full THEN 1..4 ELSE {1, 3}
 CertLen(kb) == CASE kb = 256 -> 800 [] kb = 384 -> 1060 [] OTHER -> 1320       \* padded DER length (abstract, multiple of 4)
 UdLens == IF Full THEN {0, 4, 32, 96} ELSE {0, 4}
+(* the length classes of the ISK user data, explored on one representative layout per (kind, curve, ISK) - UdShape *)
+UdLimit == 96
+UdOdd  == {1, 2, 3, UdLimit - 3, UdLimit - 2, UdLimit - 1} \cup (IF Full THEN {5, 6, 7, 33, 34, 35, 61, 62, 63} ELSE {})
+UdPlan == {0, 4, UdLimit} \cup UdOdd \cup (IF Full THEN {32, 64} ELSE {})
+UdRoutes == {"cfg", "class_family", "class"}     \* how the harness hands the user data to the tool (the ROM never sees it)
 
 (* special value classes of chained computations: [what, cut (byte offset of the running value; 0 = the final value), cls] *)
 NoSp   == [what |-> "none", cut |-> 0, cls |-> "any"]
@@ -58,18 +76,22 @@ SpMan  == [what : {"mancrc"}, cut : {40, 0}, cls : {"zero", "ones"}]
 SpCtr  == [what : {"ctr"}, cut : {0}, cls : {"zero", "ones", "lo32ones", "lo64ones"}]
 Specials(kind) == {NoSp} \cup (CASE kind \in {"crc_xip", "crc_ram"} -> SpCrc [] kind = "v21_crc" -> SpMan [] kind = "v1_enc" -> SpCtr [] OTHER -> {})
 
+UdShape(sh) == sh.isk # 0 /\ sh.app = 300 /\ sh.tzType = 0 /\ sh.nKeys = 1 /\ ~sh.dig
 Shapes ==
   [kind : {"crc_xip", "crc_ram"}, app : AppLens, tzType : {0, 1, 2}, ks : {FALSE}, depth : {0}, kb : {0},
-   nKeys : {0}, used : {0}, curve : {0}, isk : {0}, ud : {0}, dig : {FALSE}]
+   nKeys : {0}, used : {0}, curve : {0}, isk : {0}, ud : {0}, udx : {"exported"}, dig : {FALSE}]
   \cup
   [kind : {"v1_xip"}, app : AppLens, tzType : {0, 1, 2}, ks : {FALSE}, depth : Depths, kb : KeyBytes,
-   nKeys : {0}, used : {0}, curve : {0}, isk : {0}, ud : {0}, dig : {FALSE}]
+   nKeys : {0}, used : {0}, curve : {0}, isk : {0}, ud : {0}, udx : {"exported"}, dig : {FALSE}]
   \cup
   [kind : {"v1_ram", "v1_enc"}, app : AppLens, tzType : {0, 1, 2}, ks : BOOLEAN, depth : Depths, kb : KeyBytes,
-   nKeys : {0}, used : {0}, curve : {0}, isk : {0}, ud : {0}, dig : {FALSE}]
+   nKeys : {0}, used : {0}, curve : {0}, isk : {0}, ud : {0}, udx : {"exported"}, dig : {FALSE}]
   \cup
   { sh \in [kind : {"v21_dig", "v21_crc"}, app : (IF Full THEN AppLens ELSE {56, 300}), tzType : {0, 1}, ks : {FALSE}, depth : {0}, kb : {0},
-            nKeys : (IF Full THEN 1..4 ELSE {1, 3}), used : 0..3, curve : {32, 48}, isk : {0, 64, 96}, ud : UdLens, dig : BOOLEAN] :
+            nKeys : (IF Full THEN 1..4 ELSE {1, 3}), used : 0..3, curve : {32, 48}, isk : {0, 64, 96}, ud : UdLens \cup UdPlan,
+            udx : {"exported", "given"}, dig : BOOLEAN] :
+      /\ (sh.ud \notin UdLens => UdShape(sh))                       \* the length classes: one representative layout
+      /\ (sh.udx = "given" => UdShape(sh) /\ sh.ud % 4 # 0)         \* signed as given, exported padded: differs only off a multiple of 4
       /\ sh.used < sh.nKeys /\ (Full \/ sh.used \in {0, sh.nKeys - 1}) /\ (sh.isk = 0 => sh.ud = 0) /\ sh.isk <= 2 * sh.curve
       /\ (sh.app < IvtLen => sh.nKeys = 1 /\ sh.ud = 0)           \* the small payloads: one key class is enough
       /\ (sh.kind = "v21_crc" => ~sh.dig) }
@@ -139,7 +161,8 @@ BuildV21(sh, rom) ==
       tabLen == IF sh.nKeys > 1 THEN sh.nKeys * sh.curve ELSE 0
       keyAt == rkrAt + 4 + tabLen
       rkrEnd == keyAt + 2 * sh.curve
-      iskSigAt == rkrEnd + 12 + sh.isk + sh.ud
+      udOut == IF sh.udx = "given" THEN Align4(sh.ud) ELSE sh.ud       \* the user data bytes that stand in the exported certificate
+      iskSigAt == rkrEnd + 12 + sh.isk + udOut
       cbEnd == IF sh.isk = 0 THEN rkrEnd ELSE iskSigAt + 2 * sh.curve
       tz == TzBytes(rom, sh.tzType)
       manLen == ManHdrLen + tz + (IF rom.man = 2 THEN 4 ELSE 0)
@@ -147,7 +170,7 @@ BuildV21(sh, rom) ==
       signer == IF sh.isk = 0 THEN 2 * sh.curve ELSE sh.isk
       dig == IF sh.dig THEN signer \div 2 ELSE 0
   IN [fileLen |-> sigAt + signer + dig, w28 |-> sh.app, imgLen |-> 0, cbAt |-> cbAt, rkrAt |-> rkrAt, tabLen |-> tabLen, keyAt |-> keyAt,
-      rkrEnd |-> rkrEnd, iskSigAt |-> iskSigAt, cbEnd |-> cbEnd, manLen |-> manLen, sigAt |-> sigAt, signer |-> signer, digLen |-> dig,
+      rkrEnd |-> rkrEnd, udOut |-> udOut, iskSigAt |-> iskSigAt, cbEnd |-> cbEnd, manLen |-> manLen, sigAt |-> sigAt, signer |-> signer, digLen |-> dig,
       reg |-> NonEmpty(HeadRegs("ivt_w28", sh.app) \o
                << R("app", IvtLen, cbAt), R("cb_hdr", cbAt, rkrAt), R("rkr_flags", rkrAt, rkrAt + 4), R("rkr_table", rkrAt + 4, keyAt),
                   R("rkr_key", keyAt, rkrEnd),
@@ -175,8 +198,9 @@ Corner == rom.hmac /\ shape.app < IvtLen                  \* the HMAC field lies
 Init == /\ shape \in Shapes /\ img = Build(shape) /\ s = S0
         /\ sp \in (IF SpShape(shape) THEN Specials(shape.kind) ELSE {NoSp})
         /\ be \in (IF sp = NoSp THEN BackEndChoices(shape) ELSE {NoBe(shape)})
-        /\ t \in (IF sp = NoSp /\ be = NoBe(shape) THEN 0..Len(img.reg) ELSE {0})
+        /\ t \in (IF sp = NoSp /\ be = NoBe(shape) /\ shape.udx = "exported" THEN 0..Len(img.reg) ELSE {0})
 Step(ok, nx) == s' = (IF ok THEN nx ELSE [s EXCEPT !.st = "Rejected"]) /\ UNCHANGED <<shape, sp, be, t, img>>
+UdUnsigned == shape.udx = "given" /\ img.udOut # shape.ud           \* exported bytes in front of the ISK signature that its signer never saw
 AsIs(role) == be.emb = role /\ Wire(shape.kind, be[role]) = "der"  \* a DER blob sits where the ROM reads r || s
 CrcChain(cuts) == \* what an executor reports: the planned special at its cut, "other" elsewhere
   LET cs == { c \in cuts : c = 0 \/ c <= img.fileLen }
@@ -223,8 +247,9 @@ RootKeyRecord == s.st = "Rkr" /\ \E inT \in Aux(Hit(img.rkrAt, img.rkrEnd)) :
             fuseOk |-> ~(IF shape.nKeys > 1 THEN Hit(img.rkrAt + 4, img.keyAt) ELSE Hit(img.keyAt, img.rkrEnd))]
   IN Step(RkrOK(rom, s, e), RkrNx(rom, s, e))
 IskCert == s.st = "Isk" /\
-  LET e == [rd |-> TRUE, ok |-> ~Hit(img.rkrAt, img.cbEnd) /\ ~AsIs("isk"), at |-> img.rkrEnd, iskLen |-> shape.isk, udLen |-> shape.ud, udFlag |-> shape.ud > 0,
-            sigOff |-> 12 + shape.isk + shape.ud, sigAt |-> img.iskSigAt, sigLen |-> 2 * shape.curve, frm |-> img.rkrAt, to |-> img.iskSigAt]
+  LET e == [rd |-> TRUE, ok |-> ~Hit(img.rkrAt, img.cbEnd) /\ ~AsIs("isk") /\ ~UdUnsigned, at |-> img.rkrEnd, iskLen |-> shape.isk,
+            udLen |-> img.udOut, udFlag |-> shape.ud > 0,       \* what an executor reads: the length the offset word implies
+            sigOff |-> 12 + shape.isk + img.udOut, sigAt |-> img.iskSigAt, sigLen |-> 2 * shape.curve, frm |-> img.rkrAt, to |-> img.iskSigAt]
   IN Step(IskOK(rom, s, e), IskNx(rom, s, e))
 CertBlockEnd == s.st = "CbEnd" /\ LET e == [at |-> img.cbEnd, size |-> img.cbEnd - img.cbAt] IN Step(CbEndOK(rom, s, e), CbEndNx(rom, s, e))
 Manifest == s.st = "Man" /\
@@ -243,7 +268,8 @@ Accept == s.st = "Done" /\ Step(AcceptOK(rom, s), AcceptNx(rom, s))
 Emit == /\ s.st \in {"Accepted", "Rejected", "Unsettled"}
         /\ PrintT(ToJson([kind |-> shape.kind, cls |-> (IF t = 0 THEN "none" ELSE TReg.n), verdict |-> s.st, enc |-> rom.type = 3,
                            corner |-> Corner, app |-> shape.app, sp |-> sp, be |-> be, beShape |-> BeShape(shape),
-                           curve |-> shape.curve, isk |-> shape.isk]))
+                           curve |-> shape.curve, isk |-> shape.isk, ud |-> shape.ud, udx |-> shape.udx, udOut |-> (IF rom.cb = 21 THEN img.udOut ELSE 0),
+                           udClass |-> UdClass(shape.ud), udShape |-> (UdShape(shape) /\ shape.ud \in UdPlan), udRoutes |-> UdRoutes]))
         /\ s' = [s EXCEPT !.st = "End"] /\ UNCHANGED <<shape, sp, be, t, img>>
 Stutter == s.st = "End" /\ UNCHANGED vars
 Next == ReadIvt \/ CheckCrc \/ CheckHmac \/ CertSplit \/ CertBlockV1 \/ CertV1 \/ RkhTable \/ VerifySigV1 \/ Decrypt \/ CertBlockV21 \/ RootKeyRecord
@@ -251,7 +277,7 @@ Next == ReadIvt \/ CheckCrc \/ CheckHmac \/ CertSplit \/ CertBlockV1 \/ CertV1 \
 Spec == Init /\ [][Next]_vars
 
 (* ---- lemmas *)
-UntamperedAccepted == (t = 0 /\ be.emb = "nxp") => s.st # "Rejected"
+UntamperedAccepted == (t = 0 /\ be.emb = "nxp" /\ shape.udx = "exported") => s.st # "Rejected"
 TamperRejected == (s.st = "Accepted" /\ t # 0) => TReg.n \in DontCare
 DontCareAccepted == (s.st = "Rejected" /\ t # 0) => TReg.n \notin DontCare
 RegionsCovered == s.st = "Accepted" =>
@@ -265,6 +291,9 @@ SplitPrefixCovered == (s.st = "Unsettled" /\ t # 0) => TReg.n \in {"keystore", "
 (* special value classes of chained computations change nothing for the ROM *)
 SpecialsAccepted == (sp # NoSp /\ s.st \in {"Accepted", "Rejected", "Unsettled"}) => s.st = "Accepted"
 (* signing back ends: whoever signs, the image of the format is accepted; a DER blob stored as delivered never is *)
-BackEndsAccepted == (be.emb = "nxp" /\ t = 0 /\ ~Corner /\ s.st \in {"Accepted", "Rejected", "Unsettled"}) => s.st = "Accepted"
+BackEndsAccepted == (be.emb = "nxp" /\ shape.udx = "exported" /\ t = 0 /\ ~Corner /\ s.st \in {"Accepted", "Rejected", "Unsettled"}) => s.st = "Accepted"
 AsDeliveredRejected == be.emb # "nxp" => s.st \notin {"Accepted", "Unsettled"}
+(* ISK user data: the image of the format is accepted for every length class; user data exported padded but signed as given never are *)
+UdLengthsAccepted == (UdShape(shape) /\ shape.udx = "exported" /\ t = 0 /\ be.emb = "nxp" /\ s.st \in {"Accepted", "Rejected", "Unsettled"}) => s.st = "Accepted"
+PaddedUnsignedRejected == shape.udx = "given" => s.st \notin {"Accepted", "Unsettled"}
 =============================================================================
